@@ -37,15 +37,14 @@ def write_replay(prop, entry):
 
 
 def kani_playback(harness, cfg):
-    """re-run one failing harness with concrete playback; returns dict(values/test text) or None"""
+    """the verifier's counterexample replayed against the real code: Kani generates a #[test] with the concrete input
+    values and `cargo kani playback` runs it natively (tools/kani_run.native_replay)"""
     try:
-        r = kani_run.run_harnesses([harness], cfg, use_cache=False, playback=True, timeout=1800)
+        r = kani_run.native_replay(harness, cfg)
     except Exception as e:
         return {"error": repr(e)}
-    hr = r["harnesses"].get(harness) or {}
-    log = hr.get("playback_log", "") or r.get("log_tail", "")
-    tests = re.findall(r"(#\[test\]\s*\nfn kani_concrete_playback[\s\S]*?\n\})", log)
-    return {"status": hr.get("status"), "failed_checks": hr.get("failed_checks"), "concrete_playback_tests": tests[:3]}
+    return {"concrete_playback_tests": [r["test"]] if r.get("test") else [], "native_replay_failed": r.get("native_failed"),
+            "native_output_tail": r.get("output", "")[-1500:]}
 
 
 def decide(prop, tier, seed=0, use_cache=True, out=sys.stdout):
@@ -170,6 +169,7 @@ def decide(prop, tier, seed=0, use_cache=True, out=sys.stdout):
                     violations.append(dict(a, note="auxiliary obligation (invariant/proof step) that is discharged on the unchanged tree now fails; no bounded twin harness settled it"))
     for f, k in findings:
         lines.append("KNOWN-FINDING: property=%s %s [%s]" % (prop, k.get("what_fails", ""), f["name"]))
+    replays, spurious = {}, []
     for v in violations:
         entry = {"property": prop, "obligation": v["name"], "engine": v["engine"], "kind": v.get("kind"), "message": v.get("message"),
                  "source": {"file": v.get("src_file"), "line": v.get("src_line"), "fn": v.get("fn"), "text": v.get("text")},
@@ -178,10 +178,17 @@ def decide(prop, tier, seed=0, use_cache=True, out=sys.stdout):
                  "replay_cmd": "./check replay <this file>"}
         suffix = ""
         if v["engine"] == "kani":
-            pb = kani_playback(v["harness"], cfg)
+            pb = replays.get(v["harness"])
+            if pb is None:
+                pb = replays[v["harness"]] = kani_playback(v["harness"], cfg)
             entry["counterexample"] = pb
             entry["harness"] = v["harness"]
-            if not pb or not pb.get("concrete_playback_tests"):
+            if pb and pb.get("native_replay_failed") is False:
+                # CBMC's counterexample does not reproduce on the real code (spurious): not a violation
+                downgrade.append("kani harness %s: counterexample did not reproduce natively, discarded as spurious (%s)" % (v["harness"], v["name"]))
+                spurious.append(v)
+                continue
+            if not pb or not pb.get("concrete_playback_tests") or pb.get("native_replay_failed") is None:
                 suffix = " no-failing-input-found"
         else:
             entry["unit"] = v.get("unit")
@@ -228,7 +235,7 @@ def decide(prop, tier, seed=0, use_cache=True, out=sys.stdout):
         "verus_units": ev_units, "kani_harnesses": ev_kani,
         "bounded_stand_ins_not_counted_as_proved": [e for e in ev_kani if e.get("level") != "complete"],
         "known_findings_reported": [f["name"] for f, _ in findings],
-        "violations_reported": [v["name"] for v in violations],
+        "violations_reported": [v["name"] for v in violations if v not in spurious],
         "downgrades": downgrade,
         "undecided": ["%s: %s" % (u[0], u[1]) for u in undecided_units],
         "counting_rule": "obligations = AIR assert statements in the Verus queries of the units of this property (measured from --log air) + CBMC checks of the complete (loop-free, full-domain) Kani harnesses; bounded harnesses are listed separately and not counted",
@@ -237,7 +244,7 @@ def decide(prop, tier, seed=0, use_cache=True, out=sys.stdout):
     }
     evidence = {"property_id": prop, "tier": tier, "seed": seed, "level": level, "coverage": cov,
                 "assumptions": plan.get("assumptions_common", []) + pp.get("assumptions", []),
-                "wall_s": wall, "violations": len(violations)}
+                "wall_s": wall, "violations": len([v for v in violations if v not in spurious])}
     os.makedirs(EVID, exist_ok=True)
     json.dump(evidence, open(os.path.join(EVID, prop + ".json"), "w"), indent=1)
     print("%s tier=%s exit=%d obligations=%d discharged=%d verus_units=%d kani_harnesses=%d wall=%.1fs" % (
